@@ -29,6 +29,11 @@ func CheckConstructor(
 	// Filter files based on configuration (skip test files by default)
 	filesToCheck := config.FilterFiles(pass)
 
+	currentPkgPath := ""
+	if pass.Pkg != nil {
+		currentPkgPath = pass.Pkg.Path()
+	}
+
 	for file := range filesToCheck {
 		for _, decl := range file.Decls {
 			// The enclosing function is tracked per top-level declaration: code at
@@ -43,14 +48,14 @@ func CheckConstructor(
 					return true
 
 				case *ast.CompositeLit:
-					v := checkCompositeLiteral(pass, node, constructors, currentFunction)
+					v := checkCompositeLiteral(pass, node, constructors, currentPkgPath, currentFunction)
 					if v != nil {
 						violations = append(violations, *v)
 					}
 					return true
 
 				case *ast.CallExpr:
-					v := checkNewCall(pass, node, constructors, currentFunction)
+					v := checkNewCall(pass, node, constructors, currentPkgPath, currentFunction)
 					if v != nil {
 						violations = append(violations, *v)
 					}
@@ -58,7 +63,7 @@ func CheckConstructor(
 
 				case *ast.GenDecl:
 					if node.Tok == token.VAR {
-						vs := checkVarDeclaration(pass, node, constructors, currentFunction)
+						vs := checkVarDeclaration(pass, node, constructors, currentPkgPath, currentFunction)
 						violations = append(violations, vs...)
 					}
 					return true
@@ -71,10 +76,24 @@ func CheckConstructor(
 	return violations
 }
 
+// inConstructor reports whether currentFunction is a declared constructor of
+// the type. Constructors are functions of the type's own package: a function
+// that merely has the same name in another package is not exempt.
+func inConstructor(
+	constructors util.TypeAssociationRegistry,
+	currentPkgPath string,
+	typePkgPath string,
+	currentFunction string,
+	typeName string,
+) bool {
+	return currentPkgPath == typePkgPath && constructors.Match(typePkgPath, currentFunction, typeName)
+}
+
 func checkCompositeLiteral(
 	pass *analysis.Pass,
 	lit *ast.CompositeLit,
 	constructors util.TypeAssociationRegistry,
+	currentPkgPath string,
 	currentFunction string,
 ) *ConstructorViolation {
 	t := pass.TypesInfo.TypeOf(lit)
@@ -105,7 +124,7 @@ func checkCompositeLiteral(
 	}
 
 	// Check if we're in one of the allowed constructors
-	if constructors.Match(pkgPath, currentFunction, typeName) {
+	if inConstructor(constructors, currentPkgPath, pkgPath, currentFunction, typeName) {
 		return nil
 	}
 
@@ -126,6 +145,7 @@ func checkNewCall(
 	pass *analysis.Pass,
 	call *ast.CallExpr,
 	constructors util.TypeAssociationRegistry,
+	currentPkgPath string,
 	currentFunction string,
 ) *ConstructorViolation {
 	ident, ok := call.Fun.(*ast.Ident)
@@ -165,7 +185,7 @@ func checkNewCall(
 	}
 
 	// Check if we're in one of the allowed constructors
-	if constructors.Match(pkgPath, currentFunction, typeName) {
+	if inConstructor(constructors, currentPkgPath, pkgPath, currentFunction, typeName) {
 		return nil
 	}
 
@@ -186,6 +206,7 @@ func checkVarDeclaration(
 	pass *analysis.Pass,
 	decl *ast.GenDecl,
 	constructors util.TypeAssociationRegistry,
+	currentPkgPath string,
 	currentFunction string,
 ) []ConstructorViolation {
 	var violations []ConstructorViolation
@@ -237,7 +258,7 @@ func checkVarDeclaration(
 			}
 
 			// Check if we're in one of the allowed constructors
-			if constructors.Match(pkgPath, currentFunction, typeName) {
+			if inConstructor(constructors, currentPkgPath, pkgPath, currentFunction, typeName) {
 				continue
 			}
 
